@@ -203,6 +203,13 @@ def audit(ctx, rng, count, nsett):
                 ctx.incon('audit: status %s under some settings' % st_)
                 continue
             if box is None:
+                # the same settings with FULL covers (built by hand from the public constraint classes)
+                stf, vf = value_under(case, form, s, 'full')
+                if stf == 'solved' and not same(vf, ref[1]):
+                    ctx.violation('options: ordinary SAGE %s value %.8g with full covers under %s differs from %.8g under the reference settings'
+                                  % (form, vf, {k: s[k] for k in s if s[k] != sm.DEFAULTS[k]}, ref[1]),
+                                  {'stream': 'audit', 'case': case, 'form': form, 'settings': s, 'covers': 'full'})
+                    continue
                 if not same(v, ref[1]):
                     tag = []
                     if s['sum_age_force_equality'] and form == 'primal' and v == -math.inf:
@@ -262,7 +269,13 @@ def targeted(ctx, rng):
             case = {'f': rm.sig_leaf(alpha, c), 'box': None}
             ref = value_under(case, form, base_s, 'full')
             got = value_under(case, form, s, 'auto')
+            gotf = value_under(case, form, s, 'full')
             ctx.count('stream:targeted')
+            if ref[0] == 'solved' and gotf[0] == 'solved' and not same(gotf[1], ref[1]):
+                ctx.violation('options: ordinary SAGE %s value %.8g with full covers under %s differs from %.8g under the reference settings'
+                              % (form, gotf[1], {k: s[k] for k in s if s[k] != sm.DEFAULTS[k]}, ref[1]),
+                              {'stream': 'audit', 'case': case, 'form': form, 'settings': s, 'covers': 'full'})
+                return
             if ref[0] != 'solved' or got[0] != 'solved':
                 if got[0].startswith('raised') and ref[0] == 'solved':
                     ctx.violation('options: building / solving the %s problem under %s raised %s although the reference settings give %.6g'
@@ -316,6 +329,6 @@ def replay(obj):
     print('what:', obj['what'])
     r = obj['replay']
     if 'case' in r and 'settings' in r:
-        print('under the settings:', value_under(r['case'], r['form'], r['settings'], 'auto'))
+        print('under the settings:', value_under(r['case'], r['form'], r['settings'], r.get('covers', 'auto')))
         print('reference:', value_under(r['case'], r['form'], dict(sm.DEFAULTS, heuristic_reduction=False), 'auto'))
     return 1
